@@ -37,19 +37,29 @@ fn b64(data: &[u8]) -> String {
     o
 }
 
+/// free-standing functions post to the soapAction URL, which is fixed at generation time: those
+/// shapes get a soapAction on a fixed loopback port that the driver listens on
+const FREE_FN_PORTS: [u16; 2] = [42817, 42818];
+
 fn shapes() -> Vec<(String, OpSpec)> {
     vec![
         ("in+out".into(), OpSpec::simple("GetThing")),
         ("in+out+headers".into(), OpSpec { in_headers: 1, out_headers: 1, ..OpSpec::simple("GetThing") }),
         ("one-way".into(), OpSpec { output: false, ..OpSpec::simple("GetThing") }),
         ("one-way+header".into(), OpSpec { output: false, in_headers: 1, ..OpSpec::simple("GetThing") }),
+        ("free-fn in+out".into(), OpSpec::simple("GetThing")),
+        ("free-fn one-way".into(), OpSpec { output: false, ..OpSpec::simple("GetThing") }),
     ]
 }
 
-fn driver(plan: &Plan) -> Option<String> {
+fn driver(plan: &Plan, free_fn_port: Option<u16>) -> Option<String> {
     let op = plan.ops.first()?;
     let svc = plan.service_type.as_ref()?;
     let m = op.method.as_ref()?;
+    let free_fn = op.free_fn.clone();
+    if free_fn_port.is_some() && free_fn.is_none() {
+        return None;
+    }
     let (rt, re) = (op.req_type.as_ref()?, op.req_expr.as_ref()?);
     let mut d = String::new();
     d.push_str(&format!("fn mk_req() -> {rt} {{ {re} }}\n"));
@@ -89,20 +99,35 @@ fn driver(plan: &Plan) -> Option<String> {
             rows.push((format!("transport/{t}"), r));
         }
         for (label, reply) in rows {
-            let (server, url) = match reply {
+"#,
+    );
+    match free_fn_port {
+        None => {
+            d.push_str(
+                r#"            let (server, url) = match reply {
                 Some(r) => { let s = zvp::serve(vec![r]); let u = s.url("/zv/endpoint?x=1"); (Some(s), u) }
                 None => (None, format!("http://127.0.0.1:{}/zv/endpoint?x=1", zvp::dead_port())),
             };
 "#,
-    );
-    d.push_str(&format!("            let mut svc = {svc}::new(cred.clone());\n            svc.location = url;\n            let fut = async move {{ svc.{m}(mk_req()).await }};\n            let res = rt.block_on(fut);\n"));
+            );
+            d.push_str(&format!("            let mut svc = {svc}::new(cred.clone());\n            svc.location = url;\n            let fut = async move {{ svc.{m}(mk_req()).await }};\n            let res = rt.block_on(fut);\n"));
+        }
+        Some(port) => {
+            let ff = free_fn.unwrap();
+            d.push_str(&format!(
+                "            let server = match reply {{ Some(r) => match zvp::serve_on({port}, vec![r]) {{ Some(s) => Some(s), None => {{ out.emit(\"bind-failed\", \"{port}\"); return; }} }}, None => None }};\n            let res = rt.block_on({ff}(mk_req(), cred.clone()));\n"
+            ));
+        }
+    }
     d.push_str(
         r#"            let (class, detail) = match &res { Ok(v) => ("ok", format!("{:?}", v)), Err(e) => ("err", format!("{e}")) };
             let matches = if class == "ok" { (detail == expect_dbg).to_string() } else { String::new() };
             // give the listener a moment to log a request that was cut short
             std::thread::sleep(std::time::Duration::from_millis(2));
             let (conns, reqs) = match &server { Some(s) => (s.connections(), s.requests()), None => (0, vec![]) };
+            let server = server;
             let first = reqs.first().cloned().unwrap_or_default();
+            drop(server);
             out.emit_kv("x", &[("cred", cl.to_string()), ("row", label.clone()), ("class", class.to_string()), ("value_matches", matches), ("detail", detail.chars().take(160).collect()), ("connections", conns.to_string()), ("requests", reqs.len().to_string()), ("method", first.method.clone()), ("target", first.target.clone()), ("auth", first.header("authorization").unwrap_or_default()), ("body_is_request", (format!("Ok:{}", first.body) == req_ser).to_string())]);
         }
     }
@@ -116,7 +141,23 @@ pub fn check(tier: &str) -> i32 {
     let mut rep = Report::new("C16", tier, "fault_enumeration");
     let mut agg = Agg::new();
     let sh = shapes();
-    let states: Vec<State> = sh.iter().map(|(l, o)| State { label: format!("client shape {l}"), depth: 1, set: wsdl_with(&[o.clone()], "ThingService", "http://127.0.0.1:9/thing") }).collect();
+    let mut free_i = 0;
+    let mut ports: Vec<Option<u16>> = vec![];
+    let states: Vec<State> = sh
+        .iter()
+        .map(|(l, o)| {
+            let mut set = wsdl_with(&[o.clone()], "ThingService", "http://127.0.0.1:9/thing");
+            if l.starts_with("free-fn") {
+                let port = FREE_FN_PORTS[free_i % FREE_FN_PORTS.len()];
+                free_i += 1;
+                set.wsdl.as_mut().unwrap().b_ops[0].action = Some(format!("http://127.0.0.1:{port}/zv/endpoint?x=1"));
+                ports.push(Some(port));
+            } else {
+                ports.push(None);
+            }
+            State { label: format!("client shape {l}"), depth: 1, set }
+        })
+        .collect();
     let ran = run_states(&states);
     let mut cases = vec![];
     let mut idx = vec![];
@@ -128,7 +169,7 @@ pub fn check(tier: &str) -> i32 {
         let ex = r.extract.as_ref().unwrap().as_ref().unwrap();
         let mut local = Agg::new();
         let plan = static_check("C16", st, ex, &st.set, &mut local);
-        match driver(&plan) {
+        match driver(&plan, ports[i]) {
             Some(d) => {
                 cases.push(BatchCase { id: format!("s{i}"), emitted: r.outcome.text().unwrap().to_string(), driver: Some(d) });
                 idx.push(i);
@@ -143,7 +184,7 @@ pub fn check(tier: &str) -> i32 {
         let i = idx[k];
         let st = &states[i];
         let shape = &sh[i].0;
-        let one_way = shape.starts_with("one-way");
+        let one_way = shape.contains("one-way");
         let mk = |clause: &str, cred: &str, row: &str| {
             let (status, body) = row.split_once('/').unwrap_or((row, ""));
             let status_class = if status == "transport" { "transport".to_string() } else { format!("{}xx", &status[..1]) };
@@ -157,6 +198,9 @@ pub fn check(tier: &str) -> i32 {
             agg.add(mk("run.failure", "-", "-/-").exp("driver runs to completion").act(f));
         }
         for l in res.lines.get(&c.id).map(|v| v.as_slice()).unwrap_or(&[]) {
+            if l["k"] == "bind-failed" {
+                rep.set(&format!("no_verdict_{}", shape.replace(' ', "_")), json!(format!("fixed port {} could not be bound", l["v"])));
+            }
             if l["k"] != "x" {
                 continue;
             }
@@ -205,11 +249,11 @@ pub fn check(tier: &str) -> i32 {
     agg.flush(&mut rep);
     rep.set("evaluations", json!(exchanges));
     rep.set("distinct_nontrivial", json!(distinct.len()));
-    rep.set("rule", json!("complete product: 4 client shapes (with/without output, with/without header) x 6 credential settings (absent; u:p; non-ASCII user with a colon, password with blank and @; empty user; empty password; both empty) x (9 statuses x 5 reply bodies {exact envelope, envelope in other prefixes, empty, non-XML, truncated; 500 carries a SOAP fault} + 4 transport faults {connection refused, closed before headers, closed after headers, closed mid-body}); each evaluation is one real call of the generated client method against a loopback listener; all are distinct and non-trivial"));
+    rep.set("rule", json!("complete product: 6 client shapes (service methods with/without output and with/without header; free-standing soapAction functions with/without output, listening on a fixed loopback port) x 6 credential settings (absent; u:p; non-ASCII user with a colon, password with blank and @; empty user; empty password; both empty) x (9 statuses x 5 reply bodies {exact envelope, envelope in other prefixes, empty, non-XML, truncated; 500 carries a SOAP fault} + 4 transport faults {connection refused, closed before headers, closed after headers, closed mid-body}); each evaluation is one real call of the generated client method against a loopback listener; all are distinct and non-trivial"));
     rep.set("exhaustive", json!(true));
     rep.set("batch", json!({"packages": res.packages, "cache_hits": res.cache_hits, "build_s": res.build_secs, "run_s": res.run_secs}));
     rep.assume("3xx replies are outside the claim (as in the property); reqwest 0.12 with rustls as in /repo/Cargo.lock; one listener per call, so 'one request per call' is the listener's connection and request count");
-    rep.assume("free-standing soapAction functions post to a URL fixed at generation time and are exercised for Send only (C18), not for the exchange matrix");
+    rep.assume("free-standing soapAction functions post to the soapAction URL, fixed at generation time: their states use a soapAction on a fixed loopback port (42817/42818) that the driver binds; if the port cannot be bound the driver reports it and that shape yields no verdict");
     let _ = tier;
     let _: BTreeMap<u8, u8> = BTreeMap::new();
     rep.finish()
